@@ -55,7 +55,7 @@ def gen(ch, tier):
     foreign = []
     for ix in range(ch.weighted('nforeign', (2, 2, 1))):
         foreign.append(dict(parts=[ch.choice('part', ('bundle', 'seg', 'seg', 'padmsg')) for _ in range(1 + ch.pick('nparts', 3))], tag=200 + ix,
-                            blen=10 + ch.pick('fblen', 100), extra_hint=ch.coin('xh', 1, 2), pad=ch.coin('pad', 1, 2), t=1000 * ch.pick('ft', 2000)))
+                            blen=10 + ch.pick('fblen', 100), extra_hint=ch.choice('xh', (0, 1, 2, 3, 4)), pad=ch.coin('pad', 1, 2), t=1000 * ch.pick('ft', 2000)))
     return dict(scenario='btpu_pair', kind='btpu', profile=profile, net=net, mtu=mtu, sends=sends, foreign=foreign,
                 cfg={'*': dict(mtu_default=mtu, node_id='dtn://b/')})
 
@@ -98,7 +98,8 @@ def _drive(run, plan, har):
         body = bc.body(item['tag'], item['blen'], first=0x9F)
         sbody = bc.body(item['tag'] + 50, item['blen'] + 9, first=0x9F)
         cut = max(1, len(sbody) // 2)
-        extra = [(5, b'xy')] if item['extra_hint'] else []
+        # up to four hints in one message (the agent's own messages carry at most one)
+        extra = [(5, b'xy'), (6, b''), (7, b'abc'), (9, b'z')][:item['extra_hint'] if isinstance(item['extra_hint'], int) else 1] if item['extra_hint'] else []
         segs = [refbtpu.encode_segment(900 + item['tag'], 0, sbody[:cut], False, len(sbody), extra),
                 refbtpu.encode_segment(900 + item['tag'], 1, sbody[cut:], True, len(sbody))]
         payload = b''
@@ -158,7 +159,13 @@ def _drive(run, plan, har):
             return
         try:
             pkt = repo_msgs.MessageSet(payload)
-            again = bytes(pkt)
+            # scapy answers bytes() of an untouched dissected packet from its cache of the original octets:
+            # drop the caches so that the packet is really encoded again from its fields
+            fresh = pkt.copy()
+            fresh.clear_cache()
+            for sub in fresh.msgs:
+                sub.clear_cache()
+            again = bytes(fresh)
             repo_types = [msg.msg_type for msg in pkt.msgs]
         except Exception as err:  # pylint: disable=broad-except
             run.viols.append(('codec', 'repo-cannot-decode', 'the repository decoder fails on a valid frame from %s: %s' % (node, type(err).__name__)))
